@@ -34,7 +34,10 @@ def run(P, rep, tier):
                        '(the macro NAME), and the separator after an invocation that expands to nothing. Round 7 adds: R09.21 (a __VA_OPT__ group is one operand of ##; '
                        'has_varargs goes by is_va_args, run on concrete argument lists; an empty group left of ## is a placemarker), R09.22 (an argument is macro-replaced once '
                        'per invocation: two occurrences of one parameter sharing one MacroArg), and in R09.9 stringize as a whole is run on concrete operands with string '
-                       'literals, character constants and a backslash outside of them (C11 6.10.3.2p2).')
+                       'literals, character constants and a backslash outside of them (C11 6.10.3.2p2). Round 8 adds R09.23 (C11 6.10.3.1p1: arguments that are only operands of # / ## or unused are never '
+                       'macro-expanded - the expander is reachable from subst only: call-graph obligation for every helper of the invocation machinery and every dynamic-macro handler, provenance of what '
+                       'expand_macro hands to expanding functions, subst on parameter-free replacement lists; a subst that works on the arguments whatever the replacement list uses also stops the '
+                       'parameter-driven explorations instead of multiplying their paths) and, in R09.3, `# parameter` as the right operand of ## (the string literal is the operand, not the bare #).')
     rep.assumptions += ['calloc succeeds', 'loops over token lists are analysed for 0..2 generic iterations',
                         'tokenize() returns a NUL/EOF-terminated token list', 'clang 14 typed AST']
     shared = {}
